@@ -245,53 +245,65 @@ def run(rep, tier):
     else:
         od = Sym("%s:fld0(B)" % ls.tag)
         ld = Sym("%s:fld1(b)" % ls.tag)
-        endv = linev = None
         lv = leaves(ls.out)
-        for g, l in lv:
-            for name, hv in ls.head.items():
-                if isinstance(name, str) and isinstance(hv, Sym) and hasattr(l, "env") and l.env is not None:
-                    nv = l.env.get(name)
-                    if repr(nv) == repr(add(hv, od)):
-                        endv = (name, hv)
-                    if isinstance(nv, Guard) and repr(nv.cond) == repr(Op("NotEq", ld, -128)) and repr(nv.a) == repr(add(hv, ld)) and repr(nv.b) == repr(hv):
-                        linev = (name, hv)
-        rep.ob("R3", CN, "end-accumulates-length", endv is not None, expected="end' = end + length on every path", derived=show(endv))
-        rep.ob("R3", CN, "minus128-means-no-line", linev is not None, expected="line' = line + delta unless delta == -128 (then unchanged)", derived=show(linev))
         ys = [e for e in ls.effects if e.kind == "yield"]
+        from ..sve import eval_term
+        carried = [(name, hv) for name, hv in ls.head.items() if isinstance(name, str) and isinstance(hv, Sym)]
+        SAMPLES = [(odv, ldv) for odv in (0, 3) for ldv in (-128, -2, 0, 5)]
+
+        def post_of(name, val):
+            for g_, l_ in lv:
+                if isinstance(l_, (Fall, Cont)) and all(eval_term(c, val) for c in strip(g_)):
+                    return eval_term(l_.env.get(name), val)
+            return "no continuing path"
+
+        def behaves(name, want):
+            """does the loop-carried variable `name` end every iteration with want(head value, length, delta)? -- decided by evaluating the extracted
+            path conditions and updates on the sample (length, delta) classes, so the way the update is written does not matter"""
+            for odv, ldv in SAMPLES:
+                val = {repr(od): odv, repr(ld): ldv}
+                for n2, h2 in carried:
+                    val[repr(h2)] = 1000 if n2 == name else 77
+                base = val[repr(dict(carried)[name])]
+                try:
+                    if post_of(name, val) != want(base, odv, ldv):
+                        return False
+                except Exception:
+                    return False
+            return True
+
+        def want_end(h, odv, ldv):
+            return h + odv
+
+        def want_line(h, odv, ldv):
+            return h if ldv == -128 else h + ldv
+        ends = [(n, h) for n, h in carried if behaves(n, want_end)]
+        lines_ = [(n, h) for n, h in carried if behaves(n, want_line) and (n, h) not in ends]
+        endv = ends[0] if len(ends) == 1 else None
+        linev = lines_[0] if len(lines_) == 1 else None
+        rep.ob("R3", CN, "end-accumulates-length", endv is not None, expected="one loop-carried variable with end' = end + length on every path", derived=[n for n, h in ends] or [n for n, h in carried])
+        rep.ob("R3", CN, "minus128-means-no-line", linev is not None, expected="one loop-carried variable with line' = line + delta unless delta == -128 (then unchanged)",
+               derived=[n for n, h in lines_] or [n for n, h in carried])
         if endv and linev:
-            # every continuing path (also the one that skips an empty range) must account for the entry: decided by evaluating the
-            # extracted path conditions, updates and yield on a separating set of (length, delta) values
-            from ..sve import eval_term
+            # every continuing path (also the one that skips an empty range) must account for the entry, and exactly the non-empty ranges are yielded as
+            # (previous end, previous end + length, line or None): decided by evaluation on the same separating set
             bad_paths = []
-            for odv in (0, 3):
-                for ldv in (-128, -2, 0, 5):
-                    val = {repr(od): odv, repr(ld): ldv, repr(endv[1]): 10, repr(linev[1]): 100}
-                    try:
-                        post = None
-                        for g_, l_ in lv:
-                            if isinstance(l_, (Fall, Cont)) and all(eval_term(c, val) for c in strip(g_)):
-                                post = (eval_term(l_.env.get(endv[0]), val), eval_term(l_.env.get(linev[0]), val))
-                                break
-                        emitted = [eval_term(y.args[0], val) for y in ys if all(eval_term(c, val) for c in strip(y.guards))]
-                    except Exception as ex:
-                        bad_paths.append("not evaluable: %s" % ex)
-                        break
-                    want_line = 100 if ldv == -128 else 100 + ldv
-                    want_emit = [(10, 10 + odv, None if ldv == -128 else 100 + ldv)] if odv else []
-                    if post != (10 + odv, want_line) or emitted != want_emit:
-                        bad_paths.append("length=%d delta=%d: end,line -> %s (expected %s), yields %s (expected %s)" % (odv, ldv, post, (10 + odv, want_line), emitted, want_emit))
-            rep.ob("R3", CN, "every-entry-accounted", not bad_paths, expected="end += length and line += delta (unless -128) on every path; a range is yielded iff length != 0",
+            for odv, ldv in SAMPLES:
+                val = {repr(od): odv, repr(ld): ldv, repr(endv[1]): 10, repr(linev[1]): 100}
+                try:
+                    post = (post_of(endv[0], val), post_of(linev[0], val))
+                    emitted = [eval_term(y.args[0], val) for y in ys if all(eval_term(c, val) for c in strip(y.guards))]
+                except Exception as ex:
+                    bad_paths.append("not evaluable: %s" % ex)
+                    break
+                wl = 100 if ldv == -128 else 100 + ldv
+                want_emit = [(10, 10 + odv, None if ldv == -128 else 100 + ldv)] if odv else []
+                if post != (10 + odv, wl) or emitted != want_emit:
+                    bad_paths.append("length=%d delta=%d: end,line -> %s (expected %s), yields %s (expected %s)" % (odv, ldv, post, (10 + odv, wl), emitted, want_emit))
+            rep.ob("R3", CN, "every-entry-accounted", not bad_paths, expected="end += length and line += delta (unless -128) on every path; (start, end, line or None) is yielded iff length != 0",
                    derived=bad_paths[:3] or "8 (length, delta) classes agree",
-                   msg="an entry of the 3.10 line table is not fully applied on some path (zero-length entries carry line deltas larger than 127): %s" % "; ".join(bad_paths[:2]))
-            want = (endv[1], add(endv[1], od), Guard(Op("NotEq", ld, -128), add(linev[1], ld), None))
-            ok = len(ys) == 1 and repr(ys[0].args[0]) == repr(want)
-            rep.ob("R3", CN, "range-triple", ok, expected=show(want), derived=[show(y.args[0]) for y in ys],
-                   msg="co_lines() must yield (previous end, previous end + length, line or None)")
-            if ok:
-                gs = strip(ys[0].guards)
-                okg = len(gs) == 1 and show(gs[0]) in ("not(Eq(%s, %s))" % (show(endv[1]), show(add(endv[1], od))), "NotEq(%s, %s)" % (show(endv[1]), show(add(endv[1], od))),
-                                                      "not(Eq(%s, 0))" % show(od), show(od))
-                rep.ob("R3", CN, "empty-ranges-skipped", okg, expected="yield unless start == end", derived=[show(g) for g in gs])
+                   msg="an entry of the 3.10 line table is not fully applied or not reported as (previous end, previous end + length, line or None) on some path "
+                       "(zero-length entries carry line deltas larger than 127): %s" % "; ".join(bad_paths[:2]))
     # ---------------------------------------------------------------- R5 co_lines based finders
     def colines_finder(fn, label, none_yielded):
         obj = Sym("code", "obj!")
